@@ -197,7 +197,8 @@ def pNode : P (TNode HP.BF) := do
 def runOp : P String := do
   let op ← tok
   match op with
-  | "RATE" =>
+  | "RATE" | "RLOOP" =>
+    -- RLOOP: the same call through the LITERAL loop-shaped transliteration of `rate` and `_compute` (OSModel/Loops.lean)
     let k ← pKind
     let lv ← pLeaves
     let beta ← pFloat
@@ -216,7 +217,8 @@ def runOp : P String := do
       | "S" => Outcome.scores <$> pMany n pNum
       | t => throw s!"bad-outcome {t}"
     let P : Params Float := { beta := beta, kappa := kappa, tau := tau, limitSigma := ls, gamma := g }
-    let res := rate k lv P PyNum.le PyNum.neg teams outcome { tau := tauO, limitSigma := lsO }
+    let res := if op == "RLOOP" then rateLoop k lv P PyNum.le PyNum.neg teams outcome { tau := tauO, limitSigma := lsO }
+               else rate k lv P PyNum.le PyNum.neg teams outcome { tau := tauO, limitSigma := lsO }
     if allFinite res then pure ("OK " ++ showTeams res) else pure ("NONFINITE " ++ showTeams res)
   | "TRACE" =>
     -- the arguments of the gamma callback during rate(), in order (same argument format as RATE)
